@@ -322,7 +322,7 @@ def _dbg_float(v):
     return float(v)
 
 
-def value_diff(spec, obs, path="$"):
+def value_diff(spec, obs, path="$", described=True):
     """first difference between the value tree of the specification (token texts at the leaves) and the
     normalised value tree of the library, or None"""
     if spec["k"] != obs["k"]:
@@ -332,14 +332,14 @@ def value_diff(spec, obs, path="$"):
         if len(spec["items"]) != len(obs["items"]):
             return f"{path}: {len(spec['items'])} items vs {len(obs['items'])}"
         for i, (a, b) in enumerate(zip(spec["items"], obs["items"])):
-            d = value_diff(a, b, f"{path}.{k}[{i}]")
+            d = value_diff(a, b, f"{path}.{k}[{i}]", described)
             if d:
                 return d
         return None
     if k == "item":
         if spec["tag"] != obs["tag"] or spec["block"] != obs["block"]:
             return f"{path}: item {spec['tag']}/{spec['block']} vs {obs['tag']}/{obs['block']}"
-        return value_diff(spec["v"], obs["v"], f"{path}.{spec['tag']}")
+        return value_diff(spec["v"], obs["v"], f"{path}.{spec['tag']}", described)
     if k == "enum":
         return None if spec["v"] == obs["v"] else f"{path}: enum item {spec['v']} vs {obs['v']}"
     if k == "str":
@@ -347,7 +347,13 @@ def value_diff(spec, obs, path="$"):
         return None if want == obs["v"] else f"{path}: string {want!r} vs {obs['v']!r}"
     if k == "num":
         if spec["ty"] != obs["ty"]:
-            return f"{path}: number stored as {obs['ty']}, the definition says {spec['ty']}"
+            if described:
+                return f"{path}: number stored as {obs['ty']}, the definition says {spec['ty']}"
+            # content that no definition describes: the kind in which a number is kept is the library's choice
+            # (the model's cascade long / int64 / uint64 / double is a prediction, not a demand); the value is not
+            spec = dict(spec, ty=obs["ty"])
+            if spec["ty"] not in INT and spec["ty"] not in ("float", "double"):
+                return f"{path}: number stored as {obs['ty']}"
         txt = spec["v"]["txt"]
         if spec["ty"] in ("float", "double"):
             want = float(int(txt, 16)) if txt[:2] in ("0x", "0X") else float(txt)
@@ -546,12 +552,17 @@ _HEAD = {
 }
 
 
+PER_LINE = [6]
+
+
 def block_text(tokens, indent):
-    """an IF_DATA block, a few tokens per line"""
+    """an IF_DATA block, a few tokens per line (PER_LINE[0]; the tag stays on the line of its /begin and /end)"""
     lines, cur = [], []
-    for t in tokens:
+    for i, t in enumerate(tokens):
         cur.append(t)
-        if len(cur) >= 6 or t.endswith("\n"):
+        if t in ("/begin", "/end"):
+            continue
+        if len(cur) >= PER_LINE[0] or t.endswith("\n"):
             lines.append(" ".join(cur).rstrip("\n"))
             cur = []
     if cur:
